@@ -238,6 +238,31 @@ def max_preactivation(case):
     return worst
 
 
+def min_aux_factor(case):
+    """smallest |1 + exp(z_k)| / (1 + exp(Re z_k)) over all pairs v != v' and auxiliary units k of a mixed state, with
+    z_k = d_k + U_am,k.(v+v')/2 + i U_ph,k.(v-v')/2: the factor of rho(v, v') contributed by auxiliary unit k.  Where it is small, rho(v, v')
+    nearly vanishes by cancellation and the library's log-representation of rho loses that many digits (cf. finding F1)."""
+    import cmath
+    import math
+    if case.get("type") != "density":
+        return 1.0
+    am, ph, n = case["am"], case["ph"], case["n"]
+    vs = list(itertools.product([0.0, 1.0], repeat=n))
+    worst = 1.0
+    for k in range(len(am["d"])):
+        ua, up, d = am["U"][k], ph["U"][k], am["d"][k]
+        for v in vs:
+            for vp in vs:
+                if v == vp:
+                    continue
+                re_ = d + 0.5 * sum(u * (a + b) for u, a, b in zip(ua, v, vp))
+                im_ = 0.5 * sum(u * (a - b) for u, a, b in zip(up, v, vp))
+                if re_ > 700:
+                    continue
+                worst = min(worst, abs(1.0 + cmath.exp(complex(re_, im_))) / (1.0 + math.exp(re_)))
+    return worst
+
+
 def arch_label(case):
     lab = [f"type={case['type']}", f"n={case['n']}"]
     if case["nh"] != case["n"]:
